@@ -5,7 +5,7 @@ sys.path.insert(0, os.path.dirname(os.path.dirname(os.path.abspath(__file__))))
 from gen import jsongen as G
 
 ID = "C01"
-LEVEL = "other"
+LEVEL = "proof"
 from lib.core import existing_modules
 LEAN_MODULES = ['Sonic.Props.C01', 'Sonic.Props.C05']
 REQUIRED_THEOREMS = ["Sonic.Props.C01." + n for n in ["C01_skipSpace_naive", "C01_skipSpace_padded", "C01_skipSpace_cache_stable", "C01_literal", "C01_literal_spec",
@@ -27,14 +27,15 @@ EXPLANATION = ("Oracle: Spec.Json.parse (Lean recursive-descent reader written f
                "parser refinement; the full accept-iff theorem is stated in Props/C01.lean when proved).")
 ASSUMPTIONS = ["SIMD primitives have their per-byte meaning", "Malloc(len+64) yields len+64 usable bytes (C16)"]
 TRUSTED = ["Spec.Json.parse as oracle (compiled Lean evaluation)"]
-LEVEL_TEXT = ("Machine-checked refinement proof (Lean 4) of the whole parser: for every byte string, vector width 0<W<=63, padding and stale "
-              "node-stack content the literal model of parseImpl (goto state machine, cached whitespace bitmap, in-place string decoding, SAX "
-              "stack) accepts iff the RFC 8259 spec does (C01_accept_iff), success offset = length, failure => null document, parse code, offset "
-              "<= length. The theorems carry ONE explicit per-input hypothesis, NumberCorrectOn: the number-conversion model agrees with the exact "
-              "reference on the numbers of that input (C04 proves the grammar/integer/accumulation parts and validates the floating-point cores "
-              "per input) - hence level 'other' rather than 'proof'. Error code/offset are proved independent of the uninitialised padding / node stack / previous document (C01_pad_irrelevant) and of the vector width except inside a malformed string literal, where both widths still report a string-failure code at an offset inside that literal (C01_width_irrelevant, C01_width_differs shows the exception is real).")
+LEVEL_TEXT = ("Machine-checked proof (Lean 4): for every byte string (length + 4 < 2^32), every vector width 0 < W <= 63, every padding and stale "
+              "node-stack content, the literal model of parseImpl (goto state machine, cached whitespace bitmap, in-place string decoding, SAX "
+              "stack, the complete number parser) accepts iff the RFC 8259 spec does (C01_accept_iff), success offset = length, failure => null "
+              "document, parse code, offset <= length (C01_fail_shape); code/offset/tree are independent of the uninitialised memory "
+              "(C01_pad_irrelevant) and of the width except inside a malformed string literal (C01_width_irrelevant). "
+              "The only number-related hypothesis left is the decidable guard ExpSmall (every number-like token has a written exponent below 100000 in absolute value; known finding F6 lives outside it) - the number model itself is proved against the exact reference for every conversion path (C04). The model is tied to the compiled code by the correspondence run (exact code and offset per width) and the SIMD/in-body "
+              "constants extracted from the source (simd_consts, parse_consts, scan_consts).")
 LEVEL_NOTE = "Trusted: Lean kernel; standard axioms; compiled Lean evaluation of the spec; harness."
-TECHNIQUE = "Lean 4 executable RFC 8259 spec as oracle + component theorems; differential correspondence"
+TECHNIQUE = "Lean 4 whole-parser refinement proof (model = RFC 8259 spec) + source-constant theorems + differential correspondence"
 
 
 def _case(t, cls, alloc="pool"):
@@ -72,6 +73,14 @@ def generate(rng, tier):
         cases.append(_case(t, "handwritten"))
     for t in G.nesting_texts(rng):
         cases.append(_case(t, "nesting"))
+    # every byte value at a token position behind runs of blanks (the vector whitespace classifier takes over after two blanks;
+    # 63..65 blanks cross a 64-byte bitmap block): accepted only for whitespace, digits 1-9 and '-'
+    for b in range(256):
+        for k in ([2, 3, 64] if quick else [0, 1, 2, 3, 7, 31, 62, 63, 64, 65, 70]):
+            ws = bytes(rng.choice(b" \t\n\r") for _ in range(k))
+            cases.append(_case(b"[1," + ws + bytes([b]) + b"2]", "byte-after-blanks"))
+            cases.append(_case(rng.choice([b'{"a":' + ws + bytes([b]) + b" 1}", b"[" + ws + bytes([b]) + b"]", ws + bytes([b]), b'{"a"' + ws + bytes([b]) + b":1}",
+                                          b"[1" + ws + bytes([b]) + b"]", b"[1]" + ws + bytes([b])]), "byte-after-blanks"))
     # numbers at the overflow / underflow / integer-kind boundaries, as root, element and member value
     for n in G.number_edges():
         cases.append(_case(rng.choice([n, b"[" + n + b"]", b'{"limit":' + n + b"}", b"[0," + n + b" ]"]), "number-edge"))
